@@ -11,7 +11,7 @@ exclusive `create` do not follow; `stat`, `chmod`, `openTrunc`, `readFile`, `rea
 `maxLinks` link expansions (ELOOP).
 
 What is modelled: kinds (file / dir / symlink), permission bits, file bytes, raw link targets, and the
-modification time as `Option Nat` — `some t` after an explicit `utimens`, `none` = "set by the kernel to
+modification time as `Option Int` (seconds, may be negative) — `some t` after an explicit `utimens`, `none` = "set by the kernel to
 the current time during the run" (creating / removing / renaming an entry touches the parent directory,
 writing touches the file).  Not modelled: owners, access checks (the harnesses run as one user on their
 own temp dir), atime/ctime, hard links, open file descriptors (a file is addressed by path for every
@@ -37,7 +37,7 @@ inductive Errno where
 structure Node where
   kind : Kind
   mode : Nat := 0o644
-  mtime : Option Nat := none
+  mtime : Option Int := none
   data : List UInt8 := []
   /-- raw link target split at `/` (Go `strings.Split`): absolute iff the first element is `""` -/
   target : List String := []
@@ -205,7 +205,7 @@ def pChmod (w : World) (q : Path) (mode : Nat) : Res :=
   | none => (w, some .noent)
   | some n => (AMap.insert w q { n with mode := mode }, none)
 
-def pUtimens (w : World) (q : Path) (t : Nat) : Res :=
+def pUtimens (w : World) (q : Path) (t : Int) : Res :=
   match find w q with
   | none => (w, some .noent)
   | some n => (AMap.insert w q { n with mtime := some t }, none)
@@ -236,7 +236,7 @@ def append (w : World) (p : Path) (bytes : List UInt8) : Res := withPath w p tru
 /-- `chmod(2)`: FOLLOWS a symbolic link in the final position -/
 def chmod (w : World) (p : Path) (mode : Nat) : Res := withPath w p true (pChmod w · mode)
 /-- `utimensat(AT_SYMLINK_NOFOLLOW)` -/
-def utimensNoFollow (w : World) (p : Path) (t : Nat) : Res := withPath w p false (pUtimens w · t)
+def utimensNoFollow (w : World) (p : Path) (t : Int) : Res := withPath w p false (pUtimens w · t)
 
 def rename (w : World) (src dst : Path) : Res :=
   match resolve w src false with
